@@ -1343,8 +1343,8 @@ def gen_reserved(g, sh, ms):
 
 FLAG_SETS = [["read_only"], ["skel_only"], ["local_only"], ["read_only", "local_only"], ["read_only", "skel_only"], ["skel_only", "local_only"], ["read_only", "skel_only", "local_only"]]
 NAV_PRIMS = ["getitem", "get", "child", "values", "items", "visititems", "parent", "query", "restrict", "restrict_self", "root_abs", "require_group_existing", "iter"]
-MUTATING = ["g_setitem", "g_create_group", "g_require_group", "g_create_dataset", "g_require_dataset", "g_delitem", "g_move", "g_copy", "d_setitem", "d_resize", "a_setitem", "a_delitem", "a_update", "a_pop", "a_clear", "a_setdefault", "a_create", "a_modify", "m_setitem", "m_delitem", "unrestrict"]
-READING = ["d_getitem", "d_getitem_slice", "d_get", "a_getitem", "a_get", "a_values", "a_items", "m_getitem", "m_get", "m_values", "m_items", "d_astype", "d_len_fields"]
+MUTATING = ["d_write_direct", "g_setitem", "g_create_group", "g_require_group", "g_create_dataset", "g_require_dataset", "g_delitem", "g_move", "g_copy", "d_setitem", "d_resize", "a_setitem", "a_delitem", "a_update", "a_pop", "a_clear", "a_setdefault", "a_create", "a_modify", "m_setitem", "m_delitem", "unrestrict"]
+READING = ["d_getitem", "d_getitem_slice", "d_get", "a_getitem", "a_get", "a_values", "a_items", "m_getitem", "m_get", "m_values", "m_items", "d_astype", "d_len_fields", "d_asstr", "d_iter", "d_read_direct", "d_nparray", "a_iter_getitem", "a_dict"]
 UPWARD = ["parent", "file", "abs_lookup", "abs_get", "abs_contains", "metador_query_root", "parent_parent"]
 
 
@@ -1632,6 +1632,22 @@ def leaks(w, res, tokens):
 
 
 def op_attempt(w, op):
+    kind = op["kind"]
+    if kind.startswith("sweep_"):
+        # every operation of one class through the same handle (systematic, not sampled)
+        kinds = {"sweep_M": MUTATING, "sweep_R": READING, "sweep_U": UPWARD}[kind]
+        out = "ok"
+        for k in kinds:
+            o = dict(op, kind=k)
+            r = _op_attempt(w, o)
+            if r != "ok":
+                out = r
+        w.probe("attempt_sweeps")
+        return out
+    return _op_attempt(w, op)
+
+
+def _op_attempt(w, op):
     kind, arg = op["kind"], op.get("arg", 0)
     # unique content tokens of the container (dataset and attribute values, except bools/Empty)
     tokens = content_tokens(w)
@@ -1691,6 +1707,12 @@ def op_attempt(w, op):
                 node.copy(nm, "zz_cp")
             elif kind == "d_setitem":
                 node[()] = 3
+            elif kind == "d_write_direct":
+                import numpy as _np
+
+                if isgrp:
+                    raise TypeError("not a dataset")
+                node.write_direct(_np.zeros(node.shape, dtype=node.dtype))
             elif kind == "d_resize":
                 node.resize((2,))
             elif kind == "a_setitem":
@@ -1752,6 +1774,27 @@ def op_attempt(w, op):
                 res = list(node.meta.values())
             elif kind == "m_items":
                 res = list(node.meta.items())
+            elif kind == "d_asstr":
+                res = node.asstr()[()] if not isgrp else None
+            elif kind == "d_iter":
+                res = list(iter(node))[:5] if not isgrp else None
+            elif kind == "d_read_direct":
+                import numpy as _np
+
+                if not isgrp:
+                    buf = _np.zeros(node.shape, dtype=node.dtype)
+                    node.read_direct(buf)
+                    res = buf if buf.shape else buf[()]
+            elif kind == "d_nparray":
+                import numpy as _np
+
+                res = _np.array(node) if not isgrp else None
+                if res is not None and not res.shape:
+                    res = res[()]
+            elif kind == "a_iter_getitem":
+                res = [node.attrs[k] for k in list(iter(node.attrs))[:4]]
+            elif kind == "a_dict":
+                res = dict(node.attrs)
             elif kind == "d_astype":
                 res = node.astype("i8")[()] if not isgrp else None
             elif kind == "d_len_fields":
@@ -1829,7 +1872,10 @@ class ActorGen:
             self.n[actor] += 1
             return {"op": "nav", "actor": actor, "h": g.randrange(1000), "prim": g.choice(NAV_PRIMS), "arg": g.randrange(50)}
         grp = g.choice(["M", "M", "R", "R", "U", "C"])
-        kind = "closure" if grp == "C" else g.choice(MUTATING if grp == "M" else READING if grp == "R" else UPWARD)
+        if grp != "C" and g.random() < 0.5:
+            kind = "sweep_" + grp
+        else:
+            kind = "closure" if grp == "C" else g.choice(MUTATING if grp == "M" else READING if grp == "R" else UPWARD)
         return {"op": "attempt", "actor": actor, "h": g.randrange(1000), "kind": kind, "arg": g.randrange(50)}
 
 
